@@ -27,7 +27,7 @@ import numpy as np
 from lib import core, gen, oracle, graphcap, grapheval, dagcap
 
 EXTRACTORS = ["Kernels"]
-EXTRA_PROPS = ["C05Dag"]
+EXTRA_PROPS = ["C05Dag", "C05Dag2"]
 BACKENDS = [None, "numpy", "numpy.numpylike", "numpy.einsum"]
 UPDATE_OPS = ["set_at", "add_at", "subtract_at"]
 
@@ -385,12 +385,32 @@ def lean_optdag(ctx, items):
             ctx.count("optdag:structurally-equal:rewritten")
         # the decidable side conditions of `optimizeDag_sound` (Props/C05Dag.lean), computed by the driver for this run
         if r.get("good_run") and r.get("pure_lang"):
-            ctx.count("optdag:covered-by-optimizeDag_sound(side conditions hold, pure node language)")
+            ctx.count("optdag:covered-by-optimizeDag_sound(side conditions hold, node language of the evaluator)")
+            if r.get("has_effects"):
+                ctx.count("optdag:covered-by-optimizeDag_sound:with-inplace-nodes(opaque applications)")
         elif r.get("good_run"):
-            ctx.count("optdag:outside-the-pure-node-language(in-place nodes, multi-output casts, nested graphs)")
+            ctx.count("optdag:outside-the-node-language(Assert, multi-output casts, nested graphs)")
         ctx.count("optdag:side-condition-of-pass_terminates(topological order, every pass):" + ("holds" if r.get("fuel_run") else "fails"))
         ctx.count("optdag:side-conditions-of-optimizeDag_sound:" + ("hold" if r.get("good_run") else
                   "fail:" + ("top-level-graph-inlined" if not r.get("no_top_inline") else "top-not-a-wellformed-graph" if not r.get("wf_top") else "later-pass")))
+        # Props/C05Dag2.lean: the per-pass conditions follow from the INPUT graph (wfTop, topoOK) and noInlineRun -- the driver computes
+        # both sides; a disagreement contradicts `goodRun_of_input` / `fuelRun_of_input` (model and theorem out of step)
+        inp = bool(r.get("wf_top")) and bool(r.get("topo_ok")) and bool(r.get("no_inline_run"))
+        ctx.count("optdag:in-the-domain-of-optimizeDag_sound_input(input conditions, noInlineRun, node language):" + ("yes" if r.get("in_domain") else "no"))
+        if inp and not (r.get("good_run") and r.get("fuel_run")):
+            ctx.tie_broken("correspondence:optdag", f"{sig}: input conditions hold but goodRun/fuelRun computed by the driver do not (goodRun_of_input contradicted)")
+        # the measure: strictly decreasing in every pass that reports `changed` (pass_decreases_dag), pass bound (optimizeDag_pass_bound)
+        w = r.get("weights") or []
+        if r.get("measure_ok") and r.get("no_inline_run"):
+            ctx.count("optdag:in-the-domain-of-optimizeDag_terminates_dag(topological, single-output, noInlineRun):yes")
+            ok = len(w) == len(r["changed"]) + 1 and all((b < a) if ch else (b == a) for a, b, ch in zip(w, w[1:], r["changed"])) \
+                and sum(1 for ch in r["changed"] if ch) + w[-1] <= w[0]
+            if not ok:
+                ctx.tie_broken("correspondence:optdag", f"{sig}: weights {w} with flags {r['changed']} contradict pass_decreases_dag / optimizeDag_pass_bound")
+            ctx.count("optdag:measure:max-passes-allowed-minus-taken>=0:" + str(w[0] + 1 - len(r["changed"]) >= 0))
+        else:
+            ctx.count("optdag:in-the-domain-of-optimizeDag_terminates_dag(topological, single-output, noInlineRun):no:" +
+                      ("multi-output-or-unordered" if not r.get("measure_ok") else "top-level-graph-inlined"))
         ctx.extra["optdag_structurally_equal"] = ctx.extra.get("optdag_structurally_equal", 0) + 1
 
 
@@ -785,6 +805,55 @@ def stream(ctx, n_calls, n_updates):
     lean_optdag(ctx, items)
 
 
+def adapter_checks_preserved(ctx):
+    """The run-time checks that tracing inserts after a user function (isinstance / shape asserts of the adapters) are part of
+    what the graph computes: for inputs on which they fail, the optimised graph must fail as well.  Adapted functions that
+    misbehave are called through descriptions of every alignment (inputs already laid out like the output, transposed,
+    reshaped) with optimisation switched off (tracer.optimize replaced by the identity) and on; the outcomes must agree."""
+    import einx
+    import einx._src.tracer as T
+    x = np.arange(6.).reshape(2, 3)
+    y = np.arange(6.).reshape(2, 3) + 10
+    bad = {"wrong_shape": lambda a, b: (a + b)[:1], "returns_list": lambda a, b: (a + b).tolist(), "returns_scalar": lambda a, b: 1.5,
+           "well_behaved": lambda a, b: a + b}
+    bad_r = {"wrong_shape": lambda t, axis=None: np.sum(t, axis=axis)[..., None], "returns_list": lambda t, axis=None: np.sum(t, axis=axis).tolist(),
+             "well_behaved": lambda t, axis=None: np.sum(t, axis=axis)}
+    cases = []
+    for name, f in bad.items():
+        for desc, args in (("a b, a b -> a b", (x, y)), ("a b, a b", (x, y)), ("a b, b a -> a b", (x, y.T.copy())), ("a, a -> a", (x[0], y[0])), ("(a b), a b -> a b", (x.reshape(6), y))):
+            cases.append(("elementwise", name, f, desc, args))
+    for name, f in bad_r.items():
+        for desc, args in (("a [b]", (x,)), ("[a] b -> b", (x,)), ("a b -> a b", (x,))):
+            cases.append(("reduce", name, f, desc, args))
+
+    def outcome(kind, f, desc, args):
+        try:
+            op = (einx.numpy.adapt_numpylike_elementwise if kind == "elementwise" else einx.numpy.adapt_numpylike_reduce)(f)
+            r = op(desc, *[np.array(a) for a in args])
+            return ("value", np.asarray(r).shape, np.asarray(r, dtype=np.float64).round(6).tolist())
+        except Exception as e:
+            return ("raises",)
+    orig = T.optimize
+    for kind, name, f, desc, args in cases:
+        # distinct function objects with the plain signature of the wrapped one: separate adapters and caches
+        mkf = (lambda g: (lambda a, b: g(a, b))) if kind == "elementwise" else (lambda g: (lambda t, axis=None: g(t, axis=axis)))
+        f_off, f_on = mkf(f), mkf(f)
+        T.optimize = lambda graph, *a, **k: graph
+        try:
+            off = outcome(kind, f_off, desc, args)
+        finally:
+            T.optimize = orig
+        on = outcome(kind, f_on, desc, args)
+        ctx.count("adapter-checks:" + ("agree" if on == off else "DIFFER"))
+        ctx.case(f"adapter-checks:{kind}:{name}:{desc}", True)
+        if on != off:
+            ctx.violation(f"adapter-checks: adapt_numpylike_{kind}({name}) {desc!r} shapes={[list(np.shape(a)) for a in args]}: unoptimised {off[0]}, optimised {on[0]}",
+                          {"kind": "the optimised graph does not behave like the traced graph (run-time checks after a user function)", "adapter": kind,
+                           "function": name, "description": desc, "unoptimised": list(off[:2]), "optimised": list(on[:2]),
+                           "how": "tracer.optimize replaced by the identity vs. the real optimiser, same call"})
+            return
+
+
 def synthetic(ctx, specs, label):
     patterns = numpy_patterns()
     items = []
@@ -875,6 +944,7 @@ def run(ctx):
     if not quick and len(ctx.violations) < 5:
         synthetic(ctx, exhaustive_specs(rng), "exhaustive")
     if len(ctx.violations) < 5:
+        adapter_checks_preserved(ctx)
         stream(ctx, n_calls, n_updates)
     ctx.extra["traces_validated_against_impl"] = ctx.extra.get("graph_pairs_proved_equal", 0)
 
